@@ -77,6 +77,22 @@ theorem closed_states_finish (w : Bool) :
 
 /-! ### Only progress restarts the inactivity timer -/
 
+/-- Acknowledgement processing touches neither a timer, nor the receive side, nor the consumed point. -/
+theorem ackPart_frame (v : VSock) (c : Ctx) (msg : Msg) (v1 : VSock) (c1 : Ctx) (res : OnAckResult)
+    (h : v.ackPart c msg = .ok (v1, c1, res)) :
+    v1.timers = v.timers ∧ v1.rx = v.rx ∧ v1.lastConsumedRemoteSeqNr = v.lastConsumedRemoteSeqNr := by
+  unfold ackPart at h
+  simp only [bind, Except.bind, pure, Except.pure] at h
+  split at h
+  · simp at h
+  · rename_i x hx
+    cases hrec : v.recovery.isRecovering <;> cases hrtt : x.snd.newRtt <;> simp only [hrec, hrtt] at h <;>
+    · split at h
+      · simp at h
+      · simp only [Except.ok.injEq, Prod.mk.injEq] at h
+        rw [← h.1]
+        exact ⟨rfl, rfl, rfl⟩
+
 /-- **A data packet that does not advance the stream never touches a timer**: an ST_DATA at or below the
 consumed point (an old duplicate, a retransmission the peer keeps sending because our ACKs are lost) is
 answered with a forced ACK and leaves every timer - the inactivity deadline in particular - exactly where
@@ -86,17 +102,16 @@ theorem stale_data_keeps_timers (v : VSock) (c : Ctx) (msg : Msg) (psf : Bool) (
     (hoff : seqSub msg.h.seqNr (wadd v.lastConsumedRemoteSeqNr 1) < 0)
     (h : v.processAccepted c msg psf = .ok (v', c', r)) : v'.timers = v.timers := by
   unfold processAccepted at h
-  simp only [bind, Except.bind, pure, Except.pure] at h
   split at h
-  · simp at h
-  · rename_i x hx
-    cases hrec : v.recovery.isRecovering <;> cases hrtt : x.snd.newRtt <;> simp only [hrec, hrtt] at h <;>
-    · split at h
-      · simp at h
-      · rw [if_pos hd, if_pos hoff] at h
-        simp only [Except.ok.injEq, Prod.mk.injEq] at h
-        rw [← h.1]
-        rfl
+  · simp [throw, throwThe, MonadExceptOf.throw] at h
+  · rename_i v1 c1 res ha
+    obtain ⟨ht, _, hlc⟩ := ackPart_frame v c msg v1 c1 res ha
+    unfold payloadPart at h
+    simp only [bind, Except.bind, pure, Except.pure] at h
+    rw [hlc, if_pos hd, if_pos hoff] at h
+    simp only [Except.ok.injEq, Prod.mk.injEq] at h
+    rw [← h.1, ← ht]
+    rfl
 
 theorem sendControlPacket_inactivity (v : VSock) (c : Ctx) (h : Header) (v' : VSock) (c' : Ctx) (b : Bool)
     (hs : v.sendControlPacket c h = .ok (v', c', b)) : v'.timers.inactivity = v.timers.inactivity := by
@@ -123,25 +138,25 @@ theorem unconsumed_data_keeps_inactivity (v : VSock) (c : Ctx) (msg : Msg) (psf 
     (hnc : ar = .unavailable ∨ ar = .alreadyPresent)
     (h : v.processAccepted c msg psf = .ok (v', c', r)) : v'.timers.inactivity = v.timers.inactivity := by
   unfold processAccepted at h
-  simp only [bind, Except.bind, pure, Except.pure] at h
   split at h
-  · simp at h
-  · rename_i x hx
-    cases hrec : v.recovery.isRecovering <;> cases hrtt : x.snd.newRtt <;> simp only [hrec, hrtt] at h <;>
+  · simp [throw, throwThe, MonadExceptOf.throw] at h
+  · rename_i v1 c1 res ha
+    obtain ⟨ht, hrx, hlc⟩ := ackPart_frame v c msg v1 c1 res ha
+    unfold payloadPart at h
+    simp only [bind, Except.bind, pure, Except.pure] at h
+    rw [hlc, if_pos hd, if_neg hoff] at h
+    simp only [hrx, har] at h
+    rw [← ht]
+    rcases hnc with rfl | rfl <;> simp only at h <;>
     · split at h
-      · simp at h
-      · rw [if_pos hd, if_neg hoff] at h
-        simp only [har] at h
-        rcases hnc with rfl | rfl <;> simp only at h <;>
-        · split at h
-          · split at h
-            · simp at h
-            · rename_i v2 c2 b2 hsa
-              simp only [Except.ok.injEq, Prod.mk.injEq] at h
-              rw [← h.1]
-              unfold sendAck at hsa
-              rw [sendControlPacket_inactivity _ _ _ _ _ _ hsa]
-              rfl
-          · simp only [Except.ok.injEq, Prod.mk.injEq] at h
-            rw [← h.1]
+      · split at h
+        · simp at h
+        · rename_i v2 c2 b2 hsa
+          simp only [Except.ok.injEq, Prod.mk.injEq] at h
+          rw [← h.1]
+          unfold sendAck at hsa
+          rw [sendControlPacket_inactivity _ _ _ _ _ _ hsa]
+          rfl
+      · simp only [Except.ok.injEq, Prod.mk.injEq] at h
+        rw [← h.1]
 end UtpVerif.Props.C08
